@@ -112,7 +112,7 @@ def main(pid, argv):
     for (line, hmeta), il, ml in zip(hs, himpl, hmodel):
         ck.evaluations += 1
         bad = None
-        if il.startswith("PANIC") or il.startswith("CRASH"):
+        if il.startswith(("PANIC", "CRASH", "HANG")):
             bad = il[:300]
         elif hmeta is not None:
             results = il.split(" ; ")
